@@ -460,6 +460,22 @@ fn traverse_map(bytes: &[u8]) -> Result<String, String> {
         }
     }
     let nitems = m.reader.num_items();
+    let image_range = m.reader.item_type_indices(libtw2_map::format::MAP_ITEMTYPE_IMAGE);
+    let env_range = m.reader.item_type_indices(libtw2_map::format::MAP_ITEMTYPE_ENVELOPE);
+    let sound_range = m.reader.item_type_indices(libtw2_map::format::MAP_ITEMTYPE_DDRACE_SOUND);
+    // a reference handed out by a layer must point into the item type it refers to, and
+    // following it must work like following any index of that type
+    macro_rules! follow {
+        ($what:expr, $idx:expr, $range:expr) => {
+            if let Some(i) = $idx {
+                if !$range.contains(&i) {
+                    return Err(format!("layer refers to {} {} but the {} items are {:?}", $what, i, $what, $range));
+                }
+                let it = m.reader.item(i);
+                let _ = (it.type_id, it.id, it.data.len());
+            }
+        };
+    }
     for g in m.group_indices() {
         if let Some(group) = tally!(m.group(g)) {
             if group.layer_indices.end > nitems {
@@ -470,7 +486,11 @@ fn traverse_map(bytes: &[u8]) -> Result<String, String> {
                     match layer.t {
                         libtw2_map::reader::LayerType::Tilemap(t) => {
                             if let Some(n) = t.type_.to_normal() {
-                                let _ = n;
+                                follow!("image", n.image, image_range);
+                                follow!("envelope", n.color_env_and_offset.map(|x| x.0), env_range);
+                                if let Some(i) = n.image {
+                                    tally!(m.image(i));
+                                }
                             }
                             if let Some(d) = t.type_.tiles() {
                                 if d >= ndata {
@@ -485,10 +505,19 @@ fn traverse_map(bytes: &[u8]) -> Result<String, String> {
                             }
                         }
                         libtw2_map::reader::LayerType::Quads(q) => {
-                            let _ = q;
+                            follow!("image", q.image, image_range);
+                            if let Some(i) = q.image {
+                                tally!(m.image(i));
+                            }
+                            if q.data >= ndata {
+                                return Err("quads data index out of range".into());
+                            }
                         }
                         libtw2_map::reader::LayerType::DdraceSounds(s) => {
-                            let _ = s;
+                            follow!("sound", s.sound, sound_range);
+                            if s.data >= ndata {
+                                return Err("sound sources data index out of range".into());
+                            }
                         }
                     }
                 }
@@ -596,7 +625,8 @@ fn base_maps() -> Vec<Df> {
     let n = name3("Game");
     let mut maps = Vec::new();
     for version in [3, 4] {
-        // data blocks: 0 author, 1 settings, 2 image name, 3 image data, 4 game tiles, 5 tele tiles, 6 normal tiles, 7 quads
+        // data blocks: 0 author, 1 settings, 2 image name, 3 image data, 4 game tiles, 5 tele tiles, 6 normal tiles, 7 quads,
+        // 8 sound name, 9 sound data, 10 sound sources
         let data = vec![
             b"author\0".to_vec(),
             b"sv_gametype dm\0tune x 1\0".to_vec(),
@@ -606,6 +636,9 @@ fn base_maps() -> Vec<Df> {
             tele(3, 2),
             tiles(3, 2),
             vec![0u8; 152],
+            b"wind\0".to_vec(),
+            vec![0x55; 4],
+            vec![0u8; 52],
         ];
         let layer = |ty: i32, rest: Vec<i32>| -> Vec<i32> {
             let mut v = vec![0, ty, 0];
@@ -622,7 +655,7 @@ fn base_maps() -> Vec<Df> {
             (1, vec![(0, vec![1, 0, -1, -1, -1, 1])]),
             (2, vec![(0, vec![2, 2, 2, 0, 2, 3, 1]), (1, vec![1, 0, 0, 1, 2, -1])]),
             (3, vec![(0, vec![2, 4, 0, 1, 0, 0, 0, 0, 0, 0, 0, 0, 1])]),
-            (4, vec![(0, vec![3, 0, 0, 100, 100, 0, 3, 0, 0, 0, 0, 0, n[0], n[1], n[2]]), (1, vec![1, 5, 5, 0, 0, 3, 1])]),
+            (4, vec![(0, vec![3, 0, 0, 100, 100, 0, 3, 0, 0, 0, 0, 0, n[0], n[1], n[2]]), (1, vec![1, 5, 5, 0, 0, 3, 2])]),
             (
                 5,
                 vec![
@@ -630,9 +663,11 @@ fn base_maps() -> Vec<Df> {
                     (1, layer(2, tilemap(2, -1, 6, vec![5, -1, -1, -1, -1]))),
                     (2, layer(2, tilemap(0, 0, 6, vec![]))),
                     (3, layer(3, vec![2, 1, 7, 0, n[0], n[1], n[2]])),
+                    (4, layer(10, vec![2, 1, 10, 0, n[0], n[1], n[2]])),
                 ],
             ),
             (6, vec![(0, vec![0, 1, 0, 0, 0, 0])]),
+            (7, vec![(0, vec![1, 0, 8, 9, 4])]),
         ];
         maps.push(Df { version, types, data });
     }
@@ -839,7 +874,7 @@ fn main() {
     }
     run.assume("files are presented to raw::Reader through in-memory callbacks (datafile level) and to datafile::Reader::new(File) / map::Reader::from_datafile through a memfd (file reader and map level); the in-memory callback refuses data buffers above 64 MiB");
     run.finish(
-        "an independent v3/v4 writer (doc/datafile.md, zlib via the repository's binding) produces a family of well-formed files (0-3 item types, 0-2 items each with 0-3 words, 0-3 data blocks) which must be returned exactly; every header / type-table / offset / size / item word set to ~20 boundary values and all pairs on 6 selected files (thorough: 40 files), truncation at every byte, data byte flips, magic variants, mutually consistent tables that announce one item or data block more than is stored (offset at and around the end of the section); a hand-built valid map (version, info, images, envelope, groups, tile/tele/quad layers) with every item word set to 18 boundary values and pairs of words up to 5 apart (thorough: up to 13 apart) and data blocks resized; after opening, every accessor of the datafile and map readers is called",
+        "an independent v3/v4 writer (doc/datafile.md, zlib via the repository's binding) produces a family of well-formed files (0-3 item types, 0-2 items each with 0-3 words, 0-3 data blocks) which must be returned exactly; every header / type-table / offset / size / item word set to ~20 boundary values and all pairs on 6 selected files (thorough: 40 files), truncation at every byte, data byte flips, magic variants, mutually consistent tables that announce one item or data block more than is stored (offset at and around the end of the section); a hand-built valid map (version, info, images, envelope, groups, tile/tele/quad/sound layers, a sound) with every item word set to 18 boundary values and pairs of words up to 5 apart (thorough: up to 13 apart) and data blocks resized; after opening, every accessor of the datafile and map readers is called and every index a layer hands out (image, envelope, sound, data) must lie in the range of its kind and is followed",
         true,
     );
 }
